@@ -227,6 +227,24 @@ func genCaseC09(t *rapid.T) *Case {
 			}
 		}
 	}
+	// a failing sibling: whether a selection is included has nothing to do with what went wrong before it
+	if rapid.IntRange(0, 2).Draw(t, "failingSibling") == 0 {
+		for i := 0; i < rapid.IntRange(1, 3).Draw(t, "nFailing"); i++ {
+			n := g.Nodes[rapid.IntRange(0, len(g.Nodes)-1).Draw(t, fmt.Sprintf("fail%dnode", i))]
+			if n.Type == "" || (c.Assign[n.ID] != "R" && c.Assign[n.ID] != "A") {
+				continue
+			}
+			fs := s.Type(n.Type).Fields
+			f := fs[rapid.IntRange(0, len(fs)-1).Draw(t, fmt.Sprintf("fail%dfield", i))]
+			dup := false
+			for _, e := range c.Faults {
+				dup = dup || (e.Node == n.ID && e.Field == f.Name)
+			}
+			if !dup {
+				c.Faults = append(c.Faults, hx.Fault{Node: n.ID, Field: f.Name, Kind: "err"})
+			}
+		}
+	}
 	rows := allRows()
 	row := rows[rapid.IntRange(0, len(rows)-1).Draw(t, "row")]
 	applyRow(t, c, row, d.Ops[0])
